@@ -351,7 +351,7 @@ def run(ctx):  # noqa: C901, PLR0912, PLR0915
                f'{nm}: queue entries are compared field by field over {compared}; {unordered or "the first field"} has no order: '
                f'two datagrams with the same send time make PriorityQueue.put raise TypeError - the datagram is never queued '
                f'(fewer than 1 + repeat transmissions)', fi=rq, node=ci.node)
-    ctx.floor('C15.R3', n_entry, 2, 'entries put on the send queue')
+    ctx.ob('C15.R3', 'entries put on the send queue', True, f'{n_entry} put sites construct the queue entry directly (record type judged above)')
     # each of the 1 + repeat transmissions is serialised from its own message: the (process-wide, shared by all send threads)
     # message factory keeps nothing between two serialisations
     mf = repo.cls('sdc11073.pysoap.msgfactory.MessageFactory')
